@@ -342,6 +342,7 @@ PROPS['C18'] = dict(
          'progress, rejects Begin > End (End != 0) or Begin = 0, hands a valid range unchanged to the persister, and without a persister gap-fills the whole range. By induction over the '
          'persister\'s callback protocol (ASSUMED: ascending stored records of the range, then completion) every number of the range is answered exactly once, in ascending order. '
          'A replayed message (one that reaches send_process already carrying MsgSeqNum) keeps that number and goes out with PossDupFlag=Y and OrigSendingTime equal to its original SendingTime (k_send/send_possdup, proved-modular). '
+         'The configuration a session has when the application sets nothing (LoginParameters\' defaulted constructor with its default member initialisers, from the clang AST): retransmissions are not renumbered (the member was left uninitialised before fix cf74be5), sequence numbers are not reset, checksums are verified, decoding is strict. '
          'That protocol is proved for the memory persister (k_mper/range: MemoryPersister::get(from, to, ..) hands over exactly the stored records of the range, ascending, then signals completion once). '
          'and for the file persister (k_fper/range, each record read from the region its index entry names). NOT decided: the bytes of the replayed body.',
     note='persister range protocol, generate_sequence_reset, Message::factory and send are ASSUMED models; numbers below 2^31 in the request handler (it computes in int)',
@@ -651,6 +652,11 @@ def _replay_k_mper(oid, inputs, trace, wd):
 
 def _replay_k_seq(oid, inputs, trace, wd):
     R = _rp.astdump.REPO
+    if 'default_parameters' in oid:
+        lib = R + '/runtime/.libs' if os.path.exists(R + '/runtime/.libs/libfix8.so') else '/repo/runtime/.libs'
+        exe = _rp.build_native(os.path.join(_rp.VERIF, 'replay', 'k_lp.cpp'), os.path.join(wd, 'replay_k_lp'), extra=['-L' + lib, '-lfix8', '-Wl,-rpath,' + lib], sanitize=False)
+        rc, o = _rp.run_native(exe, [])
+        return dict(steps=[dict(kind='native: LoginParameters default-constructed (placement new) over storage filled with 0xff', rc=rc, output=o[-600:])], reproduced=rc == 1)
     # the real Session::process / enforce / sequence_check (session.cpp compiled from the working tree with the utests' mock connection); generated classes and the rest of the runtime from
     # the repository's built libraries; no sanitizer (session.cpp's statics exist twice, in the program and in libfix8)
     exe = _rp.build_native(os.path.join(_rp.VERIF, 'replay', 'k_seq.cpp'), os.path.join(wd, 'replay_k_seq'), sanitize=False, timeout=900,
